@@ -1,5 +1,7 @@
 ---------------------------- MODULE MC_ExcHelpers ----------------------------
 EXTENDS ExcHelpers, Json
 Emit == done => PrintT(ToJson([prog |-> prog, flag0 |-> flag0, reraise |-> reraise, propagates |-> propagates,
-                               logged |-> logged, direct |-> direct]))
+                               logged |-> logged, direct |-> direct,
+                               \* what ctx.force_reraise() called AFTER the with statement raises: the exception still held, else a fresh one (4)
+                               post |-> IF saved = 0 THEN 4 ELSE saved]))
 =============================================================================
